@@ -1,11 +1,11 @@
 package checks
 
 import (
+	"time"
 	"bytes"
 	"fmt"
 	"io"
 	"os"
-	"os/exec"
 	"path/filepath"
 	"reflect"
 	"sort"
@@ -111,12 +111,11 @@ func c06StressEval(cs *core.Case) (bool, string, string) {
 	if _, err := os.Stat(bin); err != nil {
 		return true, "skip-no-race-binary", ""
 	}
-	cmd := exec.Command(bin, "C06", "--sub", "racestress", "--home", c06ctx.Home, "--repo", c06ctx.Repo, "--", strconv.Itoa(cs.Ints[0]))
-	cmd.Env = append(os.Environ(), "GORACE=halt_on_error=1 exitcode=66", "GOMAXPROCS=8")
-	var ob bytes.Buffer
-	cmd.Stdout, cmd.Stderr = &ob, &ob
-	err := cmd.Run()
-	out := ob.String()
+	out, err, hung := runChild(15*time.Minute, append(os.Environ(), "GORACE=halt_on_error=1 exitcode=66", "GOMAXPROCS=8"),
+		bin, "C06", "--sub", "racestress", "--home", c06ctx.Home, "--repo", c06ctx.Repo, "--", strconv.Itoa(cs.Ints[0]))
+	if hung {
+		return false, "C06/free-running-pass-never-returns/stress", fmt.Sprintf("8 goroutines detecting every witness (variant %d) did not finish within 15 minutes (normally well under one): some call never returns. Output: %s", cs.Ints[0], firstLines(out, 6))
+	}
 	if strings.Contains(out, "WARNING: DATA RACE") || strings.Contains(out, "concurrent map") {
 		return false, "C06/data-race/stress", fmt.Sprintf("all witnesses detected by 8 goroutines (variant %d), free-running under the race detector: %s", cs.Ints[0], firstLines(out, 14))
 	}
@@ -712,12 +711,10 @@ func c06RaceEval(cs *core.Case) (bool, string, string) {
 	for _, v := range cs.Ints {
 		args = append(args, strconv.Itoa(v))
 	}
-	cmd := exec.Command(bin, args...)
-	cmd.Env = append(os.Environ(), "GORACE=halt_on_error=1 exitcode=66", "GOMAXPROCS=8")
-	var ob bytes.Buffer
-	cmd.Stdout, cmd.Stderr = &ob, &ob
-	err := cmd.Run()
-	out := ob.String()
+	out, err, hung := runChild(5*time.Minute, append(os.Environ(), "GORACE=halt_on_error=1 exitcode=66", "GOMAXPROCS=8"), bin, args...)
+	if hung {
+		return false, "C06/free-running-pass-never-returns", fmt.Sprintf("scenario %s, run freely (20 repetitions) under the race detector, did not finish within 5 minutes (normally a few seconds): some call never returns (deadlock). Output: %s", sc, firstLines(out, 6))
+	}
 	if strings.Contains(out, "WARNING: DATA RACE") {
 		where := ""
 		for _, l := range strings.Split(out, "\n") {
